@@ -62,7 +62,4 @@ def NoFailedSync (env : Env) (st : MTState) (h : List MReq) : Prop :=
 /-- no request of the history ended with status 2 from the worker -/
 def NoStatus2MT (h : List MReq) : Prop := ∀ q ∈ h, q.r.out ≠ .resultUnpicklable
 
-/-- every request of the history could be unpickled by the compiler server -/
-def NoLostRequestMT (h : List MReq) : Prop := ∀ q ∈ h, q.r.out ≠ .requestUnreadable
-
 end EdbVerif.SyncMT
